@@ -132,3 +132,29 @@ func VerifC20_TextDecoderBytes() {
 	verifRaceFree("text-decoder")
 	verifAssert("concurrent-decodes-keep-their-own-bytes", string(p0) == b0 && string(p1) == b1 && s0 == b1)
 }
+
+// VerifC20_AcceptNegotiationInterleaved: after some earlier request, two
+// requests negotiate their response encoding at the same time; the first one
+// may be preempted at any of its synchronisation operations. Each gets the
+// encoder of its own Accept header.
+func VerifC20_AcceptNegotiationInterleaved() {
+	accepts := []string{"application/xml; q=0.9", "application/json; q=0.8", "application/gob;q=1"}
+	kinds := []int{kXML, kJSON, kGob}
+	wi, i0, i1 := nondetChoice("earlier", 3), nondetChoice("a0", 3), nondetChoice("a1", 3)
+	ok := true
+	reps := verifNativeRepeat() // 1 in the executor (which explores the preemption points instead)
+	if reps > 1 {
+		reps *= 40
+	}
+	for rep := 0; rep < reps && ok; rep++ {
+		verifRespRoundTrip(accepts[wi], "", "") // an earlier request
+		var k0, k1 int
+		verifInterleave(
+			func() { k0, _, _, _, _ = verifRespRoundTrip(accepts[i0], "", "") },
+			func() { k1, _, _, _, _ = verifRespRoundTrip(accepts[i1], "", "") },
+		)
+		ok = k0 == kinds[i0] && k1 == kinds[i1]
+	}
+	verifRaceFree("accept-negotiation")
+	verifAssert("negotiated-encoding-is-that-of-the-own-request-under-preemption", ok)
+}
